@@ -1,15 +1,26 @@
 // Unit c49_limits -- property C49 "Execution limits are enforced exactly"
 // Real code: radix-engine/src/system/system_modules/limits/module.rs
-//              LimitsModule::{new, config, process_substate_key, process_substate_value, process_io_access}
+//              LimitsModule::{new, from_params, config, process_substate_key, process_substate_value, process_io_access}
+//              impl SystemModule for LimitsModule :: before_invoke (call depth + payload) and the ten kernel-event
+//              handlers on_{drop_node, move_module, open_substate, read_substate, write_substate, set_substate,
+//              remove_substate, scan_keys, drain_substates, scan_sorted_substates}   (NOT on_create_node: nested map loops)
 //            radix-engine/src/track/interface.rs :: CanonicalSubstateKey::len (the measurement used by the byte counters)
+//            radix-engine/src/kernel/kernel_api.rs :: KernelInvocation::len (the measurement of the invoke payload)
+//            radix-engine/src/system/system_modules/module_mixer.rs :: SystemModuleMixer::{add_log, assert_can_add_event,
+//              add_event_unchecked, checked_add_event, set_panic_message}  (log/event count+size, panic message size)
+//            radix-engine/src/system/system_modules/transaction_runtime/module.rs :: TransactionRuntimeModule::{add_log, add_event}
 use vstd::prelude::*;
 verus! {
 /*@include shims/rt.rs @*/
 /*@include shims/maps.rs @*/
-/*@include shims/string_len.rs @*/
 
 pub mod env {
     use vstd::prelude::*;
+    // ---- String::len (vstd has no spec): the length in bytes of the UTF-8 encoding, uninterpreted.
+    // (kept in this unit's env rather than in shims/ because shims/string_len.rs is owned by another unit)
+    pub uninterp spec fn string_len(s: &String) -> usize;
+    pub assume_specification [std::string::String::len] (s: &std::string::String) -> (r: usize)
+        ensures r == string_len(s);
     // ---- key / value shapes (radix-common); only their structure as byte containers matters ----
     pub struct NodeId(pub [u8; 30]);
     impl NodeId {
@@ -110,7 +121,6 @@ pub mod unit {
     use super::rt::*;
     use super::env::*;
     use super::maps::*;
-    use super::string_len::*;
 
     /*@item radix-engine/src/errors.rs :: enum RuntimeError
     @derive
